@@ -103,10 +103,10 @@ impl Block {
         let mut aligned = rkyv::AlignedVec::with_capacity(meta_len);
         aligned.extend_from_slice(&meta_buffer[2..2 + meta_len]);
 
-        // SAFETY: `aligned` contains bytes we just read from our own file format.
-        // We bounded `meta_len` to PREFIX_META_SIZE and copy into an `AlignedVec`,
-        // which satisfies alignment requirements of rkyv.
-        let archived = unsafe { rkyv::archived_root::<Metadata>(&aligned[..]) };
+        // The bytes come from disk and may be damaged: validate the archive instead of trusting it.
+        let archived = rkyv::check_archived_root::<Metadata>(&aligned[..]).map_err(|_| {
+            std::io::Error::new(std::io::ErrorKind::InvalidData, "invalid metadata")
+        })?;
         let meta: Metadata = archived.deserialize(&mut rkyv::Infallible).map_err(|_| {
             std::io::Error::new(
                 std::io::ErrorKind::InvalidData,
@@ -114,6 +114,17 @@ impl Block {
             )
         })?;
         let actual_entry_size = meta.read_size;
+        // An entry never extends past its block: a larger size is damage, not something to allocate.
+        if (actual_entry_size as u64)
+            .saturating_add(PREFIX_META_SIZE as u64)
+            .saturating_add(in_block_offset)
+            > self.limit
+        {
+            return Err(std::io::Error::new(
+                std::io::ErrorKind::InvalidData,
+                "entry size exceeds its block",
+            ));
+        }
 
         // Read the actual data
         let new_offset = file_offset + PREFIX_META_SIZE as u64;
